@@ -171,4 +171,14 @@ theorem C13_retry_event_reopens : ∀ (tk : Status) (s' : Status),
     (tk = .succeeded ∨ tk = .failed) → tkOnEngineEvent tk .retry_ = .ok s' → s' = .retrying := by
   decide +kernel
 
+/-- **C13/C02** (true since fix D32): the action of a retry that reports requested, scheduled or
+    delayed -- what a retry with a delay does -- takes the retrying task to that status, which is an
+    active one: the workflow does not mistake the task for finished while its retry is under way -/
+theorem tbl_retry_dispatch_is_active :
+    tkOnActionEvent .retrying .requested = .ok .requested ∧
+    tkOnActionEvent .retrying .scheduled = .ok .scheduled ∧
+    tkOnActionEvent .retrying .delayed = .ok .delayed ∧
+    Status.isActive .requested = true ∧ Status.isActive .scheduled = true ∧ Status.isActive .delayed = true := by
+  decide +kernel
+
 end Orq
